@@ -33,6 +33,7 @@ def prepare(release=False):
     gen_harness.gen_reflect(facts["reflect"])
     gen_harness.gen_decode(facts["operand"])
     gen_harness.gen_operand(facts)
+    gen_harness.gen_builder(facts)
     p.exe, err = core.build_harness(release=False)
     if p.exe is None:
         p.broken.append({"lemma": "harness build (T-dump call stubs generated from T-src)", "error": err[-3000:]})
@@ -61,6 +62,7 @@ def prepare(release=False):
     gen_coq.gen_reflect(facts["reflect"], facts["builder"], "ReflectData", "rspirv/grammar/reflect.rs, rspirv/dr/build/*.rs via rs2coq")
     gen_coq.gen_ref_classes(load_ref("opclass.json"), "RefClasses")
     gen_coq.gen_parse(facts["operand"], facts["engine"], "ParseData", "rspirv/binary/autogen_{parse,decode}_operand.rs, assemble.rs, dr/autogen_operand.rs via rs2coq")
+    p.builder_failures = gen_coq.gen_builder(facts, "BuilderData", "rspirv/dr/build/*.rs via rs2coq")
     rp = load_ref("params.json")
     gen_coq.gen_parse({"decode": rp["decode"], "parse": {"arms": rp["arms"], "args": rp["args"]},
                        "assemble": {"operand_arms": []}, "variants": rp["variants"]}, {"storage_index_type": "u32"},
